@@ -135,8 +135,9 @@ structure MinterRec where
   /-- `CONFIG.mint_price` -/
   price : Coin
   numTokens : Option Nat
-  /-- `MINTABLE_NUM_TOKENS` (unused for the base minter) -/
-  mintable : Nat
+  /-- `MINTABLE_NUM_TOKENS`; `none` = the item is not stored: base minter, and open-edition-minter-wl-flex created
+  without `num_tokens` (that variant does not capture the factory cap — unlimited supply) -/
+  mintable : Option Nat
   pal : Nat
   start : Nat
   status : Status
@@ -177,6 +178,13 @@ deriving Repr
 
 /-- the creator's account (also every minter's admin and seller in this aspect model) -/
 def ADMIN : Addr := 10
+
+/-- which minters apply the "3 % of the supply" rule (`check_dynamic_per_address_limit`) in `instantiate` and
+`execute_update_per_address_limit`: vending-minter(-featured), vending-minter-merkle-wl(-featured), token-merge-minter.
+The two wl-flex vending variants and the open-edition family only compare with the factory maximum. -/
+def MinterKind.hasDynPal : MinterKind → Bool
+  | .vending | .vendingFeatured | .vendingMerkle | .vendingMerkleFeatured | .tokenMerge => true
+  | _ => false
 
 /-- `check_dynamic_per_address_limit(per_address_limit, num_tokens, max_per_address_limit)` -/
 def dynPalOk (pal num maxPal : Nat) : Bool :=
@@ -220,10 +228,10 @@ def create (e : Env) (p : Params) (a : CreateArgs) : Except Err (MinterRec × Li
     -- vending-minter* instantiate
     let some k := e.kindOf q.codeId | throw .invalid
     if !k.isVending then throw .invalid
-    if !dynPalOk a.pal n q.ext.maxPerAddressLimit then throw .limit
+    if k.hasDynPal && !dynPalOk a.pal n q.ext.maxPerAddressLimit then throw .limit
     if a.now > a.start then throw .tooLate
     if !sttOk a q.maxTradingOffsetSecs then throw .invalid
-    pure ({ kind := k, price := a.price, numTokens := some n, mintable := n, pal := a.pal, start := a.start,
+    pure ({ kind := k, price := a.price, numTokens := some n, mintable := some n, pal := a.pal, start := a.start,
             status := Status.default }, msgs)
   | .o q => do
     let msgs ← createCommon e p a true
@@ -241,7 +249,10 @@ def create (e : Env) (p : Params) (a : CreateArgs) : Except Err (MinterRec × Li
     if !k.isOe then throw .invalid
     if !sttOk a q.maxTradingOffsetSecs then throw .invalid
     pure ({ kind := k, price := a.price, numTokens := a.numTokens,
-            mintable := a.numTokens.getD q.ext.maxTokenLimit, pal := a.pal, start := a.start,
+            mintable := (match a.numTokens with
+              | some n => some n
+              | none => if k = .openEditionFlex then none else some q.ext.maxTokenLimit),
+            pal := a.pal, start := a.start,
             status := Status.default }, msgs)
   | .t q => do
     let msgs ← createCommon e p a false
@@ -254,14 +265,14 @@ def create (e : Env) (p : Params) (a : CreateArgs) : Except Err (MinterRec × Li
     if !dynPalOk a.pal n q.maxPerAddressLimit then throw .limit
     if a.now > a.start then throw .tooLate
     if !sttOk a q.maxTradingOffsetSecs then throw .invalid
-    pure ({ kind := k, price := ⟨NATIVE, 0⟩, numTokens := some n, mintable := n, pal := a.pal, start := a.start,
+    pure ({ kind := k, price := ⟨NATIVE, 0⟩, numTokens := some n, mintable := some n, pal := a.pal, start := a.start,
             status := Status.default }, msgs)
   | .b q => do
     let msgs ← createCommon e p a false
     -- base-minter instantiate: the price is CAPTURED from the factory's min_mint_price
     let some k := e.kindOf q.codeId | throw .invalid
     if k != .base then throw .invalid
-    pure ({ kind := k, price := q.minMintPrice, numTokens := none, mintable := 0, pal := 0, start := a.now,
+    pure ({ kind := k, price := q.minMintPrice, numTokens := none, mintable := none, pal := 0, start := a.now,
             status := Status.default }, msgs)
 
 /-- fee split of a mint: `network_fee = price * Decimal::bps(bps)`; fee distribution (featured / developer); the rest
@@ -287,30 +298,30 @@ def mint (p : Params) (r : MinterRec) (now : Nat) (funds : List Coin) : Except E
   else do
     let some b := p.mintFeeBps | throw .other
     if now < r.start then throw .tooSoon
-    if r.mintable = 0 then throw .soldOut
+    if r.mintable = some 0 then throw .soldOut
     let pay ← mayPay funds r.price.denom
     if pay != r.price.amount then throw .payment
     let msgs ← mintMsgs r.price b r.kind.isFeatured p.dev
-    pure ({ r with mintable := r.mintable - 1 }, msgs)
+    pure ({ r with mintable := r.mintable.map (· - 1) }, msgs)
 
 /-- admin `MintTo{recipient}`: price and fee rate are the factory's CURRENT airdrop price / airdrop fee bps -/
 def airdrop (p : Params) (r : MinterRec) (funds : List Coin) : Except Err (MinterRec × List Msg) := do
   if r.kind = .base then throw .other
   let some price := p.airdropPrice | throw .other
   let some b := p.airdropBps | throw .other
-  if r.mintable = 0 then throw .soldOut
+  if r.mintable = some 0 then throw .soldOut
   if r.kind.isOe && price.amount = 0 && r.numTokens.isNone then throw .invalid
   let pay ← mayPay funds price.denom
   if pay != price.amount then throw .payment
   let msgs ← mintMsgs price b r.kind.isFeatured p.dev
-  pure ({ r with mintable := r.mintable - 1 }, msgs)
+  pure ({ r with mintable := r.mintable.map (· - 1) }, msgs)
 
 /-- admin `UpdatePerAddressLimit{per_address_limit}` -/
 def setPal (p : Params) (r : MinterRec) (limit : Nat) : Except Err MinterRec := do
   if r.kind = .base then throw .other
   let some m := p.maxPal | throw .other
   if limit = 0 || limit > m then throw .limit
-  if !r.kind.isOe && !dynPalOk limit (r.numTokens.getD 0) m then throw .limit
+  if r.kind.hasDynPal && !dynPalOk limit (r.numTokens.getD 0) m then throw .limit
   pure { r with pal := limit }
 
 /-- anyone `Shuffle{}` (vending family, token-merge): `checked_fair_burn` of the factory's CURRENT shuffle fee -/
@@ -318,7 +329,7 @@ def shuffle (p : Params) (r : MinterRec) (funds : List Coin) : Except Err (List 
   if !(r.kind.isVending || r.kind = .tokenMerge) then throw .other
   let some fee := p.shuffleFee | throw .other
   let msgs ← Sg1.checkedFairBurn funds 0 fee.amount none
-  if r.mintable = 0 then throw .soldOut
+  if r.mintable = some 0 then throw .soldOut
   pure msgs
 
 /-- admin `UpdateStartTradingTime(t)` -/
@@ -353,21 +364,27 @@ inductive Op where
   | status (slot : Nat) (v b e : Bool)
 deriving Repr
 
+/-- The bank module (chain and cw-multi-test alike) rejects a burn / send of a zero amount
+("Cannot transfer empty coins amount"), which aborts the whole transaction: e.g. a fair burn of a fee ≤ 1, or a
+mint-fee distribution whose launchpad-DAO remainder is 0. -/
+def bankOk (ms : List Msg) : Except Err (List Msg) :=
+  if ms.all (fun m => m.amount != 0) then .ok ms else .error .payment
+
 def step (e : Env) (w : World) : Op → Except Err (World × List Msg)
   | .upd u => do let p ← w.params.sudo u; pure ({ w with params := p }, [])
-  | .create slot a => do let (r, ms) ← create e w.params a; pure (w.setMinter slot r, ms)
+  | .create slot a => do let (r, ms) ← create e w.params a; let ms ← bankOk ms; pure (w.setMinter slot r, ms)
   | .mint slot now funds => do
     let some r := w.minter slot | throw .notFound
-    let (r', ms) ← mint w.params r now funds; pure (w.setMinter slot r', ms)
+    let (r', ms) ← mint w.params r now funds; let ms ← bankOk ms; pure (w.setMinter slot r', ms)
   | .airdrop slot funds => do
     let some r := w.minter slot | throw .notFound
-    let (r', ms) ← airdrop w.params r funds; pure (w.setMinter slot r', ms)
+    let (r', ms) ← airdrop w.params r funds; let ms ← bankOk ms; pure (w.setMinter slot r', ms)
   | .setPal slot limit => do
     let some r := w.minter slot | throw .notFound
     let r' ← setPal w.params r limit; pure (w.setMinter slot r', [])
   | .shuffle slot funds => do
     let some r := w.minter slot | throw .notFound
-    let ms ← shuffle w.params r funds; pure (w, ms)
+    let ms ← shuffle w.params r funds; let ms ← bankOk ms; pure (w, ms)
   | .ustt slot now t => do
     let some r := w.minter slot | throw .notFound
     updateStartTradingTime w.params r now t; pure (w, [])
